@@ -148,7 +148,11 @@ def vm_record(rec, cap):
         image['cut'] = bool(tracer.cut or res.timed_out)
         image['fault'] = res.machine_fault or ''
         from harness import c06
-        if image['fault'] and (c06.HALT.search(image['fault']) or c06.TYPEERR.search(image['fault'])) and len(tracer.rows) > 1:
+        at = re.search(r'at instruction (\d+)', image['fault'] or '')
+        failed_op = machine._program[int(at.group(1))].op_code.name if at and int(at.group(1)) < len(machine._program) else ''
+        # (a type error counts as the script's own only where the script's values meet an operator: OP, or a built-in called by JSR)
+        if image['fault'] and len(tracer.rows) > 1 and (c06.HALT.search(image['fault'])
+                                                        or (c06.TYPEERR.search(image['fault']) and failed_op in ('OP', 'JSR'))):
             # the script's own values made an instruction fail (a division by zero, arithmetic on the time pattern that
             # `time` holds after a `time at`): the run ends there, as documented;
             # the steps up to it are judged, the unfinished instruction is not a step
